@@ -14,6 +14,13 @@ def build(tier):
     return groups, meta
 
 
+def replay(g, o, assigns, path):
+    """Skeleton counterexamples are paths, not inputs: the replay searches the structured family of real inputs/histories of
+    replay_src/solver_replay.cpp (mode 'history') on the REAL solvers."""
+    from vlib import replay as RP
+    return RP.run_native(PROP, RP.src("solver_replay.cpp"), args=['history'], timeout=900)
+
+
 MANIFEST = {
     "category": "proof",
     "text": 'Unbounded proof of the contract-expressible part: flag i <=> |est_i|*||f|| < tol*max(eps^(2/3),|theta_i|) element-wise; flags at exit of compute() were computed from the Ritz data that is returned (no stale flags); value/estimate/vector/flag of a pair stay together through retrieve, sort and the accessors; compute() only ever extends a factorization from the step at which it is valid (typestate, all init/compute histories). The residual bound itself and orthonormality are numerical and NOT decided.',
